@@ -10,6 +10,7 @@ import Arca.Driver.Prepare
 import Arca.Driver.Foreach
 import Arca.Driver.EngineApi
 import Arca.Driver.Input
+import Arca.Driver.Gate
 
 open Lean (Json)
 open Arca.Driver
@@ -55,4 +56,5 @@ def main (args : List String) : IO UInt32 := do
   | "foreach" :: rest => cmdForeach rest; return 0
   | "engineapi" :: rest => cmdEngineApi rest; return 0
   | "input" :: rest => cmdInput rest; return 0
+  | "gate" :: rest => cmdGate rest; return 0
   | _ => IO.eprintln "usage: arcadrv loop [errCap]"; return 2
